@@ -7,6 +7,7 @@ import BV.Drv.C05
 import BV.Drv.C07
 import BV.Drv.C06
 import BV.Drv.C08
+import BV.Drv.C11
 
 def dispatch (line : String) : String :=
   match (line.trimAscii.toString.splitOn " ").filter (· ≠ "") with
@@ -21,6 +22,7 @@ def dispatch (line : String) : String :=
   | "c07" :: rest => BV.Drv.C07.handle rest
   | "c06" :: rest => BV.Drv.C06.handle rest
   | "c08" :: rest => BV.Drv.C08.handle rest
+  | "c11" :: rest => BV.Drv.C11.handle rest
   | _ => "bad-op"
 
 partial def loop (h : IO.FS.Stream) (out : IO.FS.Stream) : IO Unit := do
